@@ -169,6 +169,7 @@ func init() {
 					lines = append(lines, l)
 					mask = append(mask, '0')
 				}
+				twinHost := ""
 				if g.Chance(1, 3) {
 					// a rule and a $badfilter rule that is its twin except for ONE more modifier (each side may lack what the
 					// other carries): building results compares the two field by field
@@ -189,8 +190,14 @@ func init() {
 						lines = append(lines[:at], append([]string{t}, lines[at:]...)...)
 						mask = append(mask[:at], append([]byte{'0'}, mask[at:]...)...)
 					}
+					twinHost = h
 				}
 				var rs []string
+				if twinHost != "" {
+					// requests both rules of the pair match (no client, a client, the record type of the pattern)
+					rs = append(rs, Req{Kind: "host", Hostname: twinHost}.Encode(), Req{Kind: "host", Hostname: twinHost, DNSType: 1, ClientName: "Mom", ClientIP: "10.1.2.3", Tags: []string{"device_tv"}}.Encode(),
+						Req{Kind: "url", URL: "http://" + twinHost + "/", Source: "http://x.org/", Type: 4}.Encode())
+				}
 				for j := 0; j < 6; j++ {
 					rq := coupledReq(g, Pick(g, lines))
 					if g.Chance(1, 6) {
